@@ -462,6 +462,10 @@ LITERAL_KINDS = {
     'plain-set': (lambda: {1, 'a'}, False),
     'plain-frozenset': (lambda: frozenset([1, 'a']), False),
     'empty-list': (lambda: [], False),
+    # equal-but-differently-typed members side by side in ONE argument: each keeps its own type
+    'twin-tuples': (lambda: [(1, 'k'), (True, 'k'), (1.0, 'k'), (0, 'z'), (False, 'z')], False),
+    'twin-frozensets': (lambda: [frozenset([1, 5]), frozenset([True, 5]), frozenset([1.0, 5])], False),
+    'twin-nested': (lambda: ((1, (2,)), (1.0, (2,)), (True, (2.0,))), False),
 }
 WRAPPERS = ['direct', 'in-list', 'in-tuple', 'dict-value', 'list-in-list', 'in-list-twice']
 POSITIONS = ['index', 'call-arg', 'call-kwarg', 'call-second-arg'] + ['op' + b for b in BIN]
@@ -520,7 +524,7 @@ def run_literal(case):
             return R({'expected': 'the literal argument itself (%s %r) reaches the operation' % (type(lit).__name__, lit),
                       'observed': 'a different object: %s %r' % (type(received).__name__, received), **where}, 'copied')
     else:
-        if type(received) is not type(lit) or received != lit:
+        if type(received) is not type(lit) or received != lit or repr(received) != repr(lit):
             return R({'expected': '%s %r' % (type(lit).__name__, lit), 'observed': '%s %r' % (type(received).__name__, received), **where}, 'changed')
     return R(None, ('identity' if by_identity else 'rebuilt') + ':' + position.rstrip('+-*/%&|^'), nontrivial=True, steps=1,
              tags={kind, wrapper, 'op' if position.startswith('op') else position})
